@@ -1,11 +1,106 @@
 import TdVerif.Sexp
+import TdVerif.Model.C07Storage
+import TdVerif.Model.C07Table
 
 namespace TdVerif.Drive
-open TdVerif Sexp
+open TdVerif Sexp TdVerif.C07
+
+namespace C07D
+
+def leafOf? : Sexp → Option (String × Leaf)
+  | .list [.atom k, sid, .list offs] => do
+      let sid ← asNat? sid
+      let offs ← nats? offs
+      pure (k, ⟨sid, offs⟩)
+  | _ => none
+
+def objOf? : Sexp → Option Binds
+  | .list (.atom "obj" :: ls) => ls.mapM leafOf?
+  | _ => none
+
+def storeOf (ss : List (List Int)) : Store := fun sid o => (ss.getD sid []).getD o 0
+
+def initOf? : Sexp → Option State
+  | .list [.atom "init", .list (.atom "store" :: ss), .list (.atom "objs" :: os)] => do
+      let ss ← ss.mapM (fun s => do ints? (← asList? s))
+      let os ← os.mapM objOf?
+      pure { store := storeOf ss, next := ss.length, objs := os }
+  | _ => none
+
+def writeOf? : Sexp → Option (String × List Val)
+  | .list [.atom k, .list vs] => do pure (k, ← ints? vs)
+  | _ => none
+
+def rleafOf? : Sexp → Option RLeaf
+  | .list [.atom k, .atom src, .list sel, .list vals, .atom al] => do
+      let sel ← nats? sel
+      let vals ← ints? vals
+      pure { key := k, src := if src = "none" then none else some src, sel := sel, vals := vals, aliased := al = "true" }
+  | _ => none
+
+def sopOf? : Sexp → Option SOp
+  | .list [.atom "bind", .atom k, o, .atom k2] => do pure (.bind k (← asNat? o) k2)
+  | .list [.atom "unbind", .atom k] => some (.unbind k)
+  | _ => none
+
+/-- a step of a driven history: a public operation (class looked up in the table) or a sentinel write -/
+inductive DStep where
+  | op (name : String) (td : Nat) (p : Payload)
+  | poke (obj : Nat) (key : String) (vals : List Val)
+
+def dstepOf? : Sexp → Option DStep
+  | .list [.atom "op", .atom name, td, .list (.atom "w" :: ws), .list (.atom "r" :: rs), .list (.atom "s" :: ss)] => do
+      let td ← asNat? td
+      let ws ← ws.mapM writeOf?
+      let rs ← rs.mapM rleafOf?
+      let ss ← ss.mapM sopOf?
+      pure (.op name td { writes := ws, results := rs, struct := ss })
+  | .list [.atom "poke", o, .atom k, .list vs] => do pure (.poke (← asNat? o) k (← ints? vs))
+  | _ => none
+
+def leafToSexp (n0 : Nat) (st : Store) (kl : String × Leaf) : Sexp :=
+  let (k, l) := kl
+  if l.sid < n0 then .list [.atom k, ofNat l.sid, ofNats l.offs, ofInts (readLeaf st l)]
+  else .list [.atom k, .atom "new", .list [], ofInts (readLeaf st l)]
+
+def stateToSexp (n0 : Nat) (s : State) : Sexp :=
+  tagged "st" (s.objs.map (fun b => tagged "obj" (b.map (leafToSexp n0 s.store))))
+
+/-- run the driven history; report every object (window + what is read through it) after each step -/
+def runD (n0 : Nat) : State → List DStep → List Sexp → Except String (List Sexp)
+  | _, [], acc => .ok acc.reverse
+  | s, .op name td p :: rest, acc =>
+      match rowClass name with
+      | none => .error name
+      | some c =>
+        let s' := run s (stepsOf c td p)
+        runD n0 s' rest (stateToSexp n0 s' :: acc)
+  | s, .poke o k vals :: rest, acc =>
+      let s' := step s (.inplace o [(k, vals)])
+      runD n0 s' rest (stateToSexp n0 s' :: acc)
+
+end C07D
 
 /-- line-protocol handler for C07: commands are named `c07.<something>` -/
 def handleC07 (cmd : String) (args : List Sexp) : Option Sexp :=
   match cmd, args with
+  | "c07.class", [.atom name] =>
+      some (match classOf name with
+        | some c => .atom c.name
+        | none => .atom "unknown")
+  | "c07.table", [] =>
+      some (.list (classTable.map (fun p => .list [.atom p.1, .atom p.2.name])))
+  | "c07.deviations", [] =>
+      some (.list (knownDeviations.map (fun p => .list [.atom p.1, .atom p.2.name])))
+  | "c07.contig", [.list offs] => do
+      let offs ← nats? offs
+      pure (.atom (if isContig ⟨0, offs⟩ then "true" else "false"))
+  | "c07.run", [init, .list (.atom "steps" :: steps)] => do
+      let s ← C07D.initOf? init
+      let steps ← steps.mapM C07D.dstepOf?
+      pure (match C07D.runD s.next s steps [] with
+        | .ok sts => tagged "ok" sts
+        | .error name => .list [.atom "err", .atom "unknown", .atom name])
   | _, _ => none
 
 end TdVerif.Drive
